@@ -420,6 +420,25 @@ def oracle_batch_interleaved(ck, rng, n):
                 wrong = [i for i, w in enumerate(want) if not np.allclose(arr[i], w[2], atol=1e-4)]
                 if wrong:
                     bad.append(f"{name}: sub-volumes {wrong} are not those of their molecules' own tomograms")
+            # the same batch merged into another one (from_loaders / add_loader take a batch apart tomogram by tomogram) and binned with computed
+            # images: every molecule still reads its own tomogram
+            bykey = {(w_[0], w_[1]): w_[2] for w_ in want}
+            for how, mg in (("from_loaders([batch])", BatchLoader.from_loaders([ld], order=order, scale=scale, output_shape=shape, corner_safe=cs)),
+                            ("add_loader(batch)", BatchLoader(order=order, scale=scale, output_shape=shape, corner_safe=cs).add_loader(ld))):
+                arr_ = np.asarray(mg.asnumpy())
+                keys_ = list(zip(mg.molecules.features["t"].to_list(), mg.molecules.features["r"].to_list()))
+                if sorted(keys_) != sorted(bykey) or any(not np.allclose(arr_[i_], bykey[k_], atol=1e-4) for i_, k_ in enumerate(keys_)):
+                    bad.append(f"{how}: the merged batch does not read every molecule from its own tomogram")
+            if order > 0:
+                for comp_ in (True, False):
+                    lb = ld.binning(2, compute=comp_)
+                    arr_ = np.asarray(lb.asnumpy())
+                    for i_, (iid_, r_, _) in enumerate(want):
+                        one_ = SubtomogramLoader(tomos[iid_], ld.molecules.subset([i_]).drop_features(["image-id"]), order=order, scale=scale, output_shape=shape, corner_safe=cs)
+                        ref_ = np.asarray(one_.binning(2, compute=True).load(0))
+                        if not np.allclose(arr_[i_], ref_, atol=1e-3 * max(1.0, float(np.abs(ref_).max()))):
+                            bad.append(f"binning(2, compute={comp_}) of the batch: sub-volume {i_} is not the one a single loader of its tomogram gives after binning")
+                            break
         except Exception as e:  # noqa
             bad.append(f"raised {type(e).__name__}: {e}")
         ck.oracle_count("batch_interleaved_load", 1, 1)
